@@ -56,6 +56,7 @@ def run(c):
     p = gen(c)
     c.assumptions += ['offset/size/starting-round space enumerated exhaustively; state and data VALUES are sampled (fixed patterns, walking bits, seeded random)',
                       'identical trace text from another back end reuses the TLC verdict of the first run (the trace spec is a function of the trace text)']
+    build_many(BACKENDS_Q)
     for fl in BACKENDS_Q:
         c.tv(p, fl, 'perm', max_cost=12.0)
     c.cov['exhaustive'] = True
